@@ -69,6 +69,8 @@ func verifNetTypes(k int) []NetworkType {
 		return []NetworkType{NetworkTypeUDP6}
 	case 3:
 		return []NetworkType{NetworkTypeUDP4, NetworkTypeUDP6}
+	case 5:
+		return []NetworkType{NetworkTypeUDP4, NetworkTypeTCP6} // mixed: IPv6 only over TCP
 	default:
 		return []NetworkType{NetworkTypeTCP4}
 	}
@@ -282,7 +284,11 @@ func verifC18GatherHost() {
 	a.loop = verifLoop()
 	n, all := verifBuildNetK(1, false)
 	a.net = n
-	ntKind := verifChoice(4)
+	ntKind := verifChoice(5)
+	if ntKind == 4 {
+		ntKind = 5 // udp4 + tcp6: no UDP host candidate may appear on an IPv6 address
+		verifReach("mixed-transports")
+	}
 	a.networkTypes = verifNetTypes(ntKind)
 	a.includeLoopback = verifBool()
 	rejectLast := byte(6 * verifChoice(2)) // IP filter: accept all / reject addresses ending in 6
@@ -305,6 +311,16 @@ func verifC18GatherHost() {
 		linkLocalM := x.v6 && verifAnd(x.ip[0] == 0xff, x.ip[1]&0x0f == 0x02)
 		hidden := verifAnd(a.mDNSMode != MulticastDNSModeQueryAndGather, verifOr(linkLocal, linkLocalM))
 		want := verifAnd(eligible, verifNot(hidden))
+		// this gatherer has no TCP mux: what it publishes are UDP host candidates,
+		// so the address family must be enabled for UDP (an enabled TCP type of
+		// that family does not count)
+		udpFamilyEnabled := len(a.networkTypes) == 0
+		for _, t := range a.networkTypes {
+			if (t == NetworkTypeUDP6 && x.v6) || (t == NetworkTypeUDP4 && !x.v6) {
+				udpFamilyEnabled = true
+			}
+		}
+		want = verifAnd(want, udpFamilyEnabled)
 		got := false
 		for _, c := range published {
 			base := verifBaseOf(c)
@@ -322,6 +338,7 @@ func verifC18GatherHost() {
 		}
 		// an empty network-type list means all network types (documented on AgentConfig.NetworkTypes)
 		verifAssertKnown(got == want, "published-iff-eligible-and-not-link-local(one-host-candidate-per-accepted-address-for-udp)", "C18-empty-network-types", ntKind == 0)
+		_ = "C18-host-network-type-cross-product"
 	}
 	for _, c := range published {
 		verifAssert(c != nil, "no-nil-candidate-from-the-host-gatherer")
